@@ -44,6 +44,8 @@ thread_local! {
     static EDGES_TOTAL: Cell<u64> = const { Cell::new(0) };
     static EDGE_OFFERS: Cell<u64> = const { Cell::new(0) };
     static EDGE_RNG: Cell<u64> = const { Cell::new(0x9E37_79B9_7F4A_7C15) };
+    static EDGE_SEEN: RefCell<Vec<u32>> = const { RefCell::new(Vec::new()) };
+    static EDGE_EPOCH: Cell<u32> = const { Cell::new(0) };
     static JUMP_AT: Cell<u64> = const { Cell::new(0) };
     static JUMP_MS: Cell<u64> = const { Cell::new(0) };
     static JUMPS_FIRED: Cell<u64> = const { Cell::new(0) };
@@ -62,8 +64,24 @@ pub fn take_jumps_fired() -> u64 {
 
 /// Edges beyond this count inside one call are not scheduling points any more.
 pub const EDGE_PREEMPT_LIMIT: u64 = 30_000;
-/// One edge in this many is offered to the scheduler (deterministic per-thread sampling).
-pub const EDGE_SAMPLE: u64 = 12;
+/// The first EDGE_FRESH executions of an edge by a thread within a run are always offered to
+/// the scheduler (rarely executed code — cache management, initialisation, slow paths — is
+/// where windows hide); later executions are sampled, one in EDGE_SAMPLE (deterministic
+/// per-thread generator).
+pub const EDGE_FRESH: u32 = 3;
+pub const EDGE_SAMPLE: u64 = 32;
+
+static GUARDS: std::sync::atomic::AtomicU32 = std::sync::atomic::AtomicU32::new(0);
+static RUN_EPOCH: std::sync::atomic::AtomicU32 = std::sync::atomic::AtomicU32::new(1);
+
+pub fn next_guard_id() -> u32 {
+    GUARDS.fetch_add(1, Ordering::Relaxed) + 1
+}
+
+/// Start a new run: per-thread edge counts of earlier runs become invalid.
+pub fn new_run_epoch() {
+    RUN_EPOCH.fetch_add(1, Ordering::Relaxed);
+}
 /// Pseudo site id of a basic-block edge.
 pub const SITE_EDGE: u32 = 79;
 
@@ -95,7 +113,7 @@ pub fn in_call_fast() -> bool {
 }
 
 /// A basic-block edge inside a guarded library call (dense build only).
-pub fn on_edge() {
+pub fn on_edge(guard_id: u32) {
     let e = EDGES.with(|c| {
         let v = c.get() + 1;
         c.set(v);
@@ -105,8 +123,24 @@ pub fn on_edge() {
     if e > EDGE_PREEMPT_LIMIT {
         return;
     }
+    // how often has this thread executed this edge in this run? (epoch-stamped counters,
+    // so nothing is cleared between runs)
+    let epoch = EDGE_EPOCH.with(|c| c.get()) & 0x00ff_ffff;
+    let count = EDGE_SEEN.with(|v| {
+        let mut v = v.borrow_mut();
+        let idx = guard_id as usize;
+        if idx >= v.len() {
+            let n = (GUARDS.load(Ordering::Relaxed) as usize + 1).max(idx + 1);
+            v.resize(n, 0);
+        }
+        let cell = v[idx];
+        let c = if cell >> 8 == epoch { (cell & 0xff) + 1 } else { 1 };
+        let c = c.min(255);
+        v[idx] = (epoch << 8) | c;
+        c
+    });
     // deterministic sampling: a per-thread generator that advances once per edge
-    let pick = EDGE_RNG.with(|r| {
+    let sampled = EDGE_RNG.with(|r| {
         let mut x = r.get();
         x ^= x << 13;
         x ^= x >> 7;
@@ -114,7 +148,7 @@ pub fn on_edge() {
         r.set(x);
         x % EDGE_SAMPLE == 0
     });
-    if !pick {
+    if count > EDGE_FRESH && !sampled {
         return;
     }
     if (MASK.with(|m| m.get()) >> SITE_EDGE) & 1 == 0 {
@@ -125,6 +159,11 @@ pub fn on_edge() {
         EDGE_OFFERS.with(|c| c.set(c.get() + 1));
         sim.site(SITE_EDGE, true);
     }
+}
+
+/// Edges executed by the current / most recent call on this thread (debugging aid).
+pub fn call_edges() -> u64 {
+    EDGES.with(|c| c.get())
 }
 
 pub fn take_edge_counts() -> (u64, u64) {
@@ -151,6 +190,7 @@ pub fn attach(sim: Option<Arc<SimThread>>, mask: u128) {
         .map(|s| crate::rng::mix(s.edge_seed, s.idx as u64 + 1))
         .unwrap_or(0x9E37_79B9_7F4A_7C15);
     EDGE_RNG.with(|r| r.set(seed | 1));
+    EDGE_EPOCH.with(|c| c.set(RUN_EPOCH.load(Ordering::Relaxed)));
     MASK.with(|m| m.set(mask));
     SIM.with(|s| *s.borrow_mut() = sim);
     PROBES.with(|p| *p.borrow_mut() = [0; NSITES]);
